@@ -21,6 +21,8 @@ each reference, so dropping the increment at one site breaks exactly the theorem
   genSelectAggr   /  the "Read part 21" block): entity member -> ReadEntityRef( ..., instances, addFileId ); member that is itself
                      a select -> _m.STEPread (in, &_error, instances, utype, addFileId, currSch); aggregate member ->
                      _m STEPread (in, &_error, <elem type>, instances, addFileId, currSch)
+  aggrNested      STEPaggregate::ReadValue (the reader of GenericAggregate = aggregate of aggregates, src/exp2cxx/class_strings.c): the
+                  elements are kept as text; true = `ShiftEntityRefs( text, addFileId )` is applied to it, false = `(void) addFileId;`
 """
 import os, re
 
@@ -184,6 +186,31 @@ def extract(repo):
     if not m:
         raise ValueError("exp2cxx: emitted aggregate member read changed")
     f["genSelectAggr"] = m.group(1) == "addFileId"
+    # ---- aggregates of aggregates: exp2cxx maps an aggregate whose element type is an aggregate to GenericAggregate, whose
+    # elements are kept as TEXT (GenericAggrNode / SCLundefined) and read by the base class STEPaggregate::ReadValue
+    cs = rd("src/exp2cxx/class_strings.c")
+    if not re.search(r"if\s*\(\s*TYPEinherits_from\(\s*t\s*,\s*aggregate_\s*\)\s*\)\s*\{\s*bt\s*=\s*TYPEget_body\(\s*t\s*\)->base\s*;\s*"
+                     r"if\s*\(\s*TYPEinherits_from\(\s*bt\s*,\s*aggregate_\s*\)\s*\)\s*\{\s*return\s*\(\s*\"GenericAggregate\"\s*\)\s*;", cs):
+        raise ValueError("exp2cxx: aggregate of aggregates is no longer mapped to GenericAggregate")
+    agg0 = rd("src/clstepcore/STEPaggregate.cc")
+    gen = rd("src/clstepcore/STEPaggrGeneric.cc")
+    if not re.search(r"Severity\s+GenericAggrNode::STEPread\(\s*istream\s*&\s*in\s*,\s*ErrorDescriptor\s*\*\s*err\s*\)\s*\{\s*return\s+value\.STEPread\(\s*in\s*,\s*err\s*\)\s*;\s*\}", gen) \
+            or "GenericAggregate::ReadValue" in gen:
+        raise ValueError("GenericAggrNode::STEPread / GenericAggregate::ReadValue: shape changed")
+    rv = re.sub(r"\s+", "", _body(agg0, "Severity STEPaggregate::ReadValue( istream & in, ErrorDescriptor * err,"))
+    uses = len(re.findall(r"\baddFileId\b", rv))
+    if "(void)addFileId;" in rv and uses == 1:
+        f["aggrNested"] = False           # the increment is dropped: references inside the text stay as written
+    elif ("item->STEPread(in,&errdesc);GenericAggrNode*textNode=addFileId?dynamic_cast<GenericAggrNode*>(item):0;"
+          "if(textNode){std::stringtext;textNode->value.asStr(text);ShiftEntityRefs(text,addFileId);textNode->value=text.c_str();}") in rv \
+            and uses == 2:
+        sh = re.sub(r"\s+", "", _body(agg0, "static void ShiftEntityRefs( std::string & s, int add )"))
+        for need in ("if(s[i]=='\\''){", "elseif(s[i]=='#'&&i+1<s.size()&&isdigit((unsignedchar)s[i+1])){", "out+=std::to_string(id+add);", "s=out;"):
+            if need not in sh:
+                raise ValueError("ShiftEntityRefs: shape changed: " + need)
+        f["aggrNested"] = True            # every `#<digits>` outside a string literal gets the increment (no look-up: text)
+    else:
+        raise ValueError("STEPaggregate::ReadValue: unknown use of addFileId")
     # ---- state a reader could carry from one reference to the next (or from one file to the next): `static` locals in the
     # functions of the reference-reading path, and file-scope mutable statics of their source files that these functions use
     path_fns = [(attr, "STEPattribute.cc", "Severity STEPattribute::STEPread( istream & in, InstMgrBase * instances, int addFileId,"),
@@ -229,7 +256,7 @@ def extract(repo):
     if id_writes != ["intid=-1;", "in>>id;", "id+=addFileId;"] or not re.search(r"instances->FindFileId\(\s*id\s*\)", rb):
         raise ValueError(f"ReadEntityRef: the looked-up id is no longer `number read` + addFileId: {id_writes}")
     order = ["instAttr", "attrRef", "attrAggr", "attrSelect", "redef", "aggrEntityElem", "aggrSelectElem", "selectContent",
-             "selectRef", "complexPart", "refAdd", "genSelectRef", "genSelectNested", "genSelectAggr"]
+             "selectRef", "complexPart", "refAdd", "genSelectRef", "genSelectNested", "genSelectAggr", "aggrNested"]
     L = ["-- GENERATED by tools/extract.d/threading.py from STEPattribute.cc, sdaiApplication_instance.cc, STEPaggrEntity.cc,",
          "-- STEPaggrSelect.cc, sdaiSelect.cc, STEPcomplex.cc (src/clstepcore) and the emitter src/exp2cxx/selects.c",
          "namespace StepModel.Generated", "",
